@@ -4,11 +4,11 @@ import os
 OUT=os.path.join(os.path.dirname(os.path.abspath(__file__)), '..', '..', 'spec', 'cfg')
 BASE=dict(
   Sessions='{1}', Accounts='{"a1"}', Pools='{"p1"}',
-  PFree=3, PStor=262144, PIngr=2, PColl=524288, PRoots=1, PEgr=1, PWstor=442368, PIngr4k=2, PVerify=1024,
+  PFree=3, PStorB=1024, PIngr=2, PCollB=2048, PRoots=1, PEgr=1, PWstor=442368, PIngr4k=2, PVerify=1024,
   DevFreeAlias='FALSE', DevReplDup='FALSE', Family='"roots"', InitSizes='{0, 1, 2, 3, 4}', NSectors=4,
   UnknownSector=9, NewSector=8, Allowance=100000000, Collateral=100000000, CPrice=5, MaxNum=2, MaxIdxLen=4,
   Edges='FALSE', PF='{"ok", "expired"}', CF='{"ok", "badsig"}', SF='{"ok", "bad"}', TF='{"ok"}', Amts='{1}',
-  Signers='{"x"}', RenewKinds='{"renew"}', MaxExchanges=1)
+  Signers='{"x"}', RenewKinds='{"renew"}', MaxExchanges=1, Dur=256)
 ORDER=list(BASE.keys())
 ROOTS_INV='RootsMatchRevision Readable DoublySigned SerialisedPerContract SolventContract NonNegative AttachedExist'
 ROOTS_PROP='AbortIsNoop RootsOnlyWithCommit RevMonotone Immutable PayoutSumConstant NoHostToRenter ExactCharge SignedCommit CommitHoldsLock BadRequestIsNoop'
@@ -55,7 +55,7 @@ emit('Host_roots_lemma_neg.cfg','''C09 self-test: the list-model lemma is NOT tr
 # ---------------- trace validation (all families)
 def emit_trace(name, comment, over):
     c=dict(BASE); c.update(over)
-    keys=['Sessions','Accounts','Pools','PFree','PStor','PIngr','PColl','PRoots','PEgr','PWstor','PIngr4k','PVerify','DevFreeAlias','DevReplDup']
+    keys=['Sessions','Accounts','Pools','PFree','PStorB','PIngr','PCollB','PRoots','PEgr','PWstor','PIngr4k','PVerify','DevFreeAlias','DevReplDup']
     lines=['\\* '+l for l in comment.strip().split('\n')]
     lines+=['SPECIFICATION TraceSpec','CONSTANTS']+['  %s = %s'%(k,c[k]) for k in keys]
     lines+=['CONSTRAINT HWM','INVARIANTS RootsMatchRevision DoublySigned NonNegative AttachedExist SolventContract','POSTCONDITION TraceAccepted','CHECK_DEADLOCK FALSE']
@@ -89,7 +89,7 @@ ONE exchange of every kind with every corruption class, real unit prices''',EACC
 
 # ---------------- C08 revisions
 REV=dict(Family='"revisions"', Sessions='{1, 2}', Accounts='{"a1"}', Pools='{"p1"}', InitSizes='{2}', NSectors=2,
-         PFree=1, PStor=2, PIngr=1, PColl=2, PRoots=1, Allowance=4, Collateral=5, MaxNum=2, Amts='{1, 2}',
+         PFree=1, PStorB=1, PIngr=1, PCollB=1, Dur=2, PRoots=1, Allowance=4, Collateral=5, MaxNum=2, Amts='{1, 2}',
          PF='{"ok", "expired", "foreign", "tampered"}', CF='{"ok", "badsig", "stale"}', SF='{"ok", "bad", "other", "replay"}',
          RenewKinds='{"renew", "refresh", "refreshpartial"}')
 REV_INV=ROOTS_INV
